@@ -153,8 +153,59 @@ def do_runwt(sid, tier="quick", props=None):
     json.dump(meta, open(os.path.join(d, "meta.json"), "w"), indent=1)
 
 
+BENIGN = os.path.join(ROOT, "benign")
+ALL_PROPS = ["C01", "C02", "C03", "C04", "C05", "C06", "C07", "C08", "C09", "C10", "C11", "C12", "C13", "C14", "C15", "C16", "C17", "C19", "C20"]
+
+
+def do_import_benign(wt, sid):
+    d = os.path.join(BENIGN, sid)
+    os.makedirs(d, exist_ok=True)
+    shutil.copy(os.path.join(wt, "patch.diff"), d)
+    meta = json.load(open(os.path.join(wt, "meta.json")))
+    json.dump(meta, open(os.path.join(d, "meta.json"), "w"), indent=1)
+    print("imported benign", sid, (meta.get("summary") or "")[:200])
+
+
+def do_run_benign(sid, tier="quick", props=None):
+    """A property-preserving change: every check must stay quiet (exit 0). Scratch worktree, evidence redirected."""
+    d = os.path.join(BENIGN, sid)
+    meta = json.load(open(os.path.join(d, "meta.json")))
+    props = props or ALL_PROPS
+    wt = "/tmp/seedrun-" + sid
+    sh("git -C /repo worktree remove --force %s" % wt)
+    sh("git -C /repo worktree add -q --detach %s HEAD" % wt)
+    results = meta.setdefault("runs", {}).setdefault(tier, {})
+    try:
+        rc, out = sh("git apply %s" % os.path.join(d, "patch.diff"), cwd=wt)
+        if rc != 0:
+            print("patch does not apply:", out)
+            return
+        rc, out = sh("go build ./... && go build -tags verif ./...", cwd=wt)
+        if rc != 0:
+            print("does not build:", out[-800:])
+            return
+        env = "VERIF_REPO=%s VERIF_EVIDENCE_DIR=/tmp/seedrun-evid VERIF_REPLAYS_DIR=/tmp/seedrun-evid" % wt
+        for pid in props:
+            rc, out = sh("%s timeout 3000 ./verif check %s --tier %s" % (env, pid, tier), cwd=ROOT, timeout=3100)
+            viol = [l for l in out.splitlines() if l.startswith("VIOLATION")]
+            results[pid] = {"exit": rc, "violation": bool(viol), "tail": out.strip().splitlines()[-4:]}
+            print(sid, pid, tier, "exit", rc, "quiet" if rc == 0 else "ALARM" if rc == 1 else "INFRA")
+            if rc != 0:
+                for l in out.strip().splitlines()[-3:]:
+                    print("   ", l[:260])
+    finally:
+        sh("git -C /repo worktree remove --force %s" % wt)
+    json.dump(meta, open(os.path.join(d, "meta.json"), "w"), indent=1)
+
+
 if __name__ == "__main__":
     a = sys.argv
+    if a[1] == "import-benign":
+        do_import_benign(a[2], a[3])
+        sys.exit(0)
+    if a[1] == "runbenign":
+        do_run_benign(a[2], a[3] if len(a) > 3 else "quick", a[4].split(",") if len(a) > 4 else None)
+        sys.exit(0)
     if a[1] == "import":
         do_import(a[2], a[3])
     elif a[1] == "verify":
